@@ -783,6 +783,14 @@ fn run_conc_scenario(
         stats.schedules += 1;
         // direct (harness-level) check as well: memory == reloaded
         let content = |st: &Value| -> Vec<Value> { st["post"].as_array().unwrap().iter().map(|p| p[1].clone()).collect() };
+        // scenarios whose calls commute carry the content every schedule must end with
+        let unexpected = sc["expect"].as_array().is_some_and(|exp| {
+            let got = content(&fin);
+            exp.iter().enumerate().any(|(k, ids)| got.get(k) != Some(ids))
+        });
+        if unexpected && stats.final_mismatch.len() < 5 {
+            stats.final_mismatch.push(json!({"scenario": sc["name"], "schedule": res.taken, "memory": fin, "expected": sc["expect"]}));
+        }
         if content(&fin) != content(&loaded) || fin["bt"] != loaded["bt"] {
             if stats.final_mismatch.len() < 5 {
                 stats.final_mismatch.push(json!({"scenario": sc["name"], "schedule": res.taken, "memory": fin, "loaded": loaded}));
